@@ -36,7 +36,7 @@ class HarnessError(Exception):
 
 class Handle:
     __slots__ = ("solver", "ref", "cls", "kw", "lineage", "alive", "mode", "tainted", "origin", "parent", "added",
-                 "twin", "pins", "expansions", "held", "conj")
+                 "twin", "pins", "expansions", "held", "conj", "noinval")
 
     def __init__(self, solver, ref, cls, kw, lineage, mode, origin, parent=None):
         self.parent = parent  # index of the handle this one was branched from (ancestry for merge)
@@ -45,6 +45,7 @@ class Handle:
         self.pins = {}  # var -> value, from user-added constraints of the literal form var == const / b / Not(b)
         self.expansions = []  # constraints ConstraintExpansionMixin derives from answers (accepted in unsat cores)
         self.held = {}  # hash -> constraint: everything the solver's public .constraints list has ever shown (tracked solvers)
+        self.noinval = set()  # variables replaced with add_replacement(..., invalidate_cache=False): memoised rewrites of compound terms stay
         self.conj = True  # the handle's model set is that of the CONJUNCTION of its lineage (false after a merge)
         self.solver = solver
         self.ref = ref
@@ -501,6 +502,7 @@ class Machine:
         nh.expansions = list(h.expansions)
         nh.held = dict(h.held)
         nh.conj = h.conj
+        nh.noinval = set(h.noinval)
         self.handles.append(nh)
         return ["h", len(self.handles) - 1]
 
@@ -648,6 +650,8 @@ class Machine:
         h.ref.add(c)
         h.lineage.append(c + ["by-add-replacement"])
         h.pins.setdefault(n, v)
+        if op.get("invalidate_cache") is False:
+            h.noinval.add(n)
         if self.dry:
             return ["added"]
         if not hasattr(h.solver, "add_replacement"):
@@ -718,6 +722,11 @@ class Machine:
                 return isinstance(sp, list) and bool(sp) and (sp[0] in ("udiv", "urem", "sdiv", "srem") or any(has_div(x) for x in sp[1:]))
 
             if any(has_div(s) for s in list(specs) + list(extras)):
+                raise NoVerdict
+            # add_replacement(..., invalidate_cache=False): the caller opted out of invalidating what was memoised for
+            # compound terms, so a compound term over such a variable may still be answered from its old rewrite - that is
+            # what the flag says; only the bare variable is judged
+            if h.noinval and any(isinstance(s, list) and s[0] != "var" and (S.spec_vars(s) & h.noinval) for s in list(specs) + list(extras)):
                 raise NoVerdict
         return extras, self.asts(extras)
 
